@@ -652,8 +652,9 @@ impl DB {
             }
         }
 
-        drop(db_lock);
-
+        // The lock file is unlinked while the lock on it is still held. Releasing the lock first would
+        // let a concurrent open lock the file that is about to lose its name; the next open would
+        // then create, and lock, a fresh lock file while that instance is still running.
         log::info!("Deleting database lock file.");
         if let Err(io_err) = fs.remove_file(&file_name_handler.get_lock_file_path()) {
             log::error!(
@@ -663,6 +664,8 @@ impl DB {
 
             return Err(RainDBError::Destruction(io_err.to_string()));
         }
+
+        drop(db_lock);
 
         if let Some(deletion_err) = maybe_deletion_err {
             return Err(RainDBError::Destruction(deletion_err.to_string()));
